@@ -148,6 +148,17 @@ def _solve_one(idx) -> Dict[str, Any]:
                     out["reason"] += f" | {name}: not installed"
         finally:
             os.unlink(path)
+    if out["verdict"] == "unknown":
+        # no verdict on the full query: a model of its quantifier-free part is attached as a *candidate* input only
+        # (the verdict stays unknown; the native replay decides whether the candidate really fails)
+        try:
+            s = _build_solver(ob, 3000, qf_only=True)
+            if s.check() == z3.sat:
+                m = s.model()
+                out["model"] = {d.name(): str(m[d])[:400] for d in m.decls() if d.arity() == 0}
+                out["reason"] += " | candidate model from the quantifier-free part"
+        except Exception:  # pragma: no cover
+            pass
     out["time"] = time.time() - t0
     return out
 
